@@ -91,6 +91,19 @@ Proof.
   - rewrite bind_ok_id, gen_find_pipeline_is_model. reflexivity.
 Qed.
 
+(** ** moduleloader.add_sys_path: the [_known_dirs] short-cut, the exists test, the EXACT
+    string membership test against sys.path, append at the end, bookkeeping *)
+Theorem gen_add_sys_path_is_model e st p :
+  gen_add_sys_path (fun s => e_exists e (resolve (e_cwd e) s)) text_id st p = add_sys_path e st p.
+Proof.
+  destruct st as [kn sp]. unfold gen_add_sys_path, add_sys_path, text_id, parent_text. cbn.
+  destruct (existsb (pp_eqb p) kn); [reflexivity|].
+  replace (if is_path_obj p then p_str p else p_str p) with (p_str p)
+    by (destruct (is_path_obj p); reflexivity).
+  destruct (e_exists e (resolve (e_cwd e) (p_str p))); cbn; [|reflexivity].
+  destruct (str_in (p_str p) sp); reflexivity.
+Qed.
+
 (** ** load_pipeline_from_file / get_pipeline_definition = the model's file loader *)
 Lemma gen_load_pipeline_from_file_is_model e path st :
   gen_load_pipeline_from_file dirname basename (add_sys_path e) path st =
